@@ -16,6 +16,18 @@ func H_C17_nni() {
 		in := innerNodes(t)
 		sxAssert(t.Reroot(in[sxChoose("newroot", len(in))]) == nil, "Reroot succeeds")
 	}
+	if sxParam("innernames", 0) == 1 {
+		// inner nodes carry names: none, all of them, or exactly one
+		in := innerNodes(t)
+		switch c := sxChoose("named", 2+len(in)); {
+		case c == 1:
+			for i, nd := range in {
+				nd.SetName("in" + string(rune('A'+i)))
+			}
+		case c >= 2:
+			in[c-2].SetName("inX")
+		}
+	}
 	before := t.Newick()
 	ref0 := newickRef(t)
 	splits0 := innerSplitSet(t)
@@ -25,7 +37,7 @@ func H_C17_nni() {
 	var rs []tree.Rearrangement
 	// one rearranger object serves several trees (as gotree nni does for a file of trees)
 	nnir := &tree.NNIRearranger{}
-	if sxChoose("reused", 2) == 1 {
+	if sxParam("reuse", 1) == 1 && sxChoose("reused", 2) == 1 {
 		other := t.Clone()
 		cnt := 0
 		nnir.Rearrange(other, func(r tree.Rearrangement) bool { cnt++; return true })
